@@ -123,7 +123,8 @@ func taskfile(c Cfg) string {
 			b.WriteString("    generates: [out.gen]\n")
 		}
 		if c.Status {
-			b.WriteString("    status:\n      - test ! -f \"$CTL/statfail\"\n")
+			// two status commands: the first is the one the driver controls, the last always passes
+			b.WriteString("    status:\n      - test ! -f \"$CTL/statfail\"\n      - 'true'\n")
 		}
 		if c.Prompt {
 			b.WriteString("    prompt: 'go?'\n")
@@ -136,7 +137,7 @@ func taskfile(c Cfg) string {
 	}
 	fmt.Fprintf(&b, "  wrap:\n    deps: ['%s', sib]\n  sib:\n    cmds:\n      - sleep 0.3; exit 1\n", t)
 	b.WriteString("  pre:\n    preconditions:\n      - test ! -f \"$CTL/failpre\"\n")
-	b.WriteString("  d:\n    dir: ./newdir\n    cmds:\n      - echo 3 >> \"$TRACE\"\n")
+	b.WriteString("  d:\n    dir: ./newdir\n    status: ['test -f nope']\n    cmds:\n      - echo 3 >> \"$TRACE\"\n")
 	return b.String()
 }
 
@@ -246,6 +247,9 @@ func Execute(h *History) error {
 				args = []string{t, "--force"}
 			case "dry":
 				args = []string{t, "--dry"}
+			case "dryfailpre":
+				args = []string{t, "--dry"}
+				ctlFile = filepath.Join(ctl, "failpre")
 			case "status":
 				args = []string{t, "--status"}
 			case "list":
@@ -359,7 +363,7 @@ func (w *world) apply(s Step, c Cfg) {
 var fileOps = []Step{{Op: "edit", F: "a"}, {Op: "touch", F: "a"}, {Op: "add", F: "b"}, {Op: "addold", F: "b"}, {Op: "rm", F: "a"},
 	{Op: "ren", F: "a", G: "b"}, {Op: "edit", F: "x"}, {Op: "touch", F: "x"}, {Op: "rm", F: "x"}, {Op: "rmgen"}, {Op: "flip"}}
 
-var allModes = []string{"run", "other", "fail1", "fail2", "failpre", "cancelsib", "kill1", "kill2", "prompt", "force", "dry", "status", "list", "listjson", "summary", "drydir"}
+var allModes = []string{"run", "other", "fail1", "fail2", "failpre", "cancelsib", "kill1", "kill2", "prompt", "force", "dry", "status", "list", "listjson", "summary", "drydir", "dryfailpre"}
 
 func inv(m string) Step { return Step{Op: "inv", Mode: m} }
 
